@@ -37,10 +37,10 @@ def body(c):
     c.model_check("ConfigScope[2 threads, depth<=3, 6 frames]", "MCConfigScope", cfg("mc", "FramesB", 3, 0, False), workers=16, timeout=600)
     progs = []
     r = tlc.run("MCConfigScope", cfg("gen3", "FramesB", 3, 3, True), workers=1, timeout=900, heap="6g"); c.add_tlc("ConfigScope-gen[L=3]", r)
-    progs += tlc.printed_json(r)
+    progs += tlc.printed_json(r, sample=900 if c.quick else 60000, seed=c.seed); c.extra["programs_exhaustive_L3_total"] = getattr(r, "printed_total", None); r.output = ""
     r = tlc.run("MCConfigScope", cfg("sim", "FramesA", 4, 6 if c.quick else 10, True), simulate="num=%d" % (200 if c.quick else 4000), depth=8 if c.quick else 14, seed=c.seed + 17, workers=1, timeout=900)
     c.add_tlc("ConfigScope-simulate[depth 4]", r)
-    long = tlc.printed_json(r)
+    long = tlc.printed_json(r, sample=300 if c.quick else 4000, seed=c.seed + 1); r.output = ""
     c.extra["programs_exhaustive_L3"] = len(progs); c.extra["programs_simulated"] = len(long)
     if len(long) > (300 if c.quick else 4000): long = rng.sample(long, 300 if c.quick else 4000)
     if c.quick and len(progs) > 900: progs = rng.sample(progs, 900)
